@@ -21,6 +21,8 @@ func main() {
 		cmdCheck(os.Args[2:])
 	case "dyn":
 		cmdDyn(os.Args[2:])
+	case "exts":
+		cmdExts()
 	case "sweep":
 		cmdSweep(os.Args[2:])
 	case "astwrites":
